@@ -509,6 +509,14 @@ def gen_bqm_base(rng, small=False):
             kw["num_reads"] = kw["ninit"] + rng.randint(1, 2 * kw["ninit"])      # tiling with a remainder
         elif kw["ninit"] >= 2 and rng.random() < 0.3:
             kw["num_reads"] = rng.randint(1, kw["ninit"] - 1)                     # truncation
+        if rng.random() < 0.25:
+            # given states in a bool / unsigned array completed by the 'random' (or 'tile') generator: the rows it adds must
+            # hold -1 for a SPIN problem whatever the dtype of the rows given (make_initial_states then gives all-ones rows,
+            # legal for either vartype); round-6 miss C07 r6m3
+            kw.update({"isg": rng.choice(['random', 'random', 'tile']), "init_form": 'array', "init_vt": 'same', "mismatch": None,
+                       "init_dtype": rng.choice(['bool', 'uint8', 'uint16', 'uint32']), "ninit": rng.randint(1, 2)})
+            kw["num_reads"] = kw["ninit"] + rng.randint(1, 3)
+            kw["init_seed"] = kw["init_seed"] | 1          # odd: make_initial_states' all-ones rule applies (seed % 4 != 0)
     if rng.random() < 0.3:
         # the base sampler's answer arrives on a future (SampleSet.from_future / nonblocking_sample_method)
         kw["async"] = rng.choice(ASYNC_MODES)
@@ -905,7 +913,8 @@ def make_initial_states(c, variables, vt, kw):
     # every eighth case: all-ones states (valid for either vartype, so bool / unsigned arrays are legal initial states of a
     # SPIN problem too - and the 'random' / 'tile' generators must still produce -1, not 255, for the rows they add;
     # round-6 miss C07 r6m3)
-    all_ones = c["init_seed"] % 8 == 3 and not c.get("mismatch")
+    all_ones = (c["init_seed"] % 8 == 3 or (ivt == 'SPIN' and c.get("init_dtype") in ('bool', 'uint8', 'uint16', 'uint32')
+                                         and c.get("init_form") != 'dicts' and c["init_seed"] % 4 != 0)) and not c.get("mismatch")
     for _ in range(c["ninit"]):
         row = [r.choice(vals) for _ in order]
         for _try in range(20):      # prefer distinct rows: order / tiling / truncation become visible
